@@ -122,11 +122,39 @@ async fn join_and_check(r: &Running, idx: usize, obs_fail: &std::sync::Mutex<Opt
                         format!("task {idx} ({:?}) ended (its future was dropped) but join() did not resolve within {:?} twice", r.spec, GRACE),
                     ));
                 }
+            } else if r.token.as_ref().map(|t| t.is_cancelled()).unwrap_or(false) {
+                // the harness cancelled this task's token at least GRACE ago; look once more
+                if tokio::time::timeout(GRACE, r.handle.join()).await.is_err() && !r.ended.load(Ordering::SeqCst) {
+                    set(Failure::new(
+                        "C42:cancelled-task-keeps-running",
+                        format!("task {idx} ({:?}): its token was cancelled more than {:?} ago but the task is still running (progress {})", r.spec, GRACE * 2, r.progress.load(Ordering::SeqCst)),
+                    ));
+                }
             } else {
                 set(Failure::new("inconclusive:task-still-running", format!("task {idx} ({:?}) still running after {:?}", r.spec, GRACE)));
             }
         }
     }
+}
+
+/// minimal join_all (no `futures` crate needed): polls every future until all are ready
+async fn futures_join_all<F: Future<Output = ()>>(futs: Vec<F>) {
+    use std::pin::Pin;
+    use std::task::Poll;
+    let mut futs: Vec<Option<Pin<Box<F>>>> = futs.into_iter().map(|f| Some(Box::pin(f))).collect();
+    std::future::poll_fn(|cx| {
+        let mut pending = false;
+        for slot in futs.iter_mut() {
+            if let Some(f) = slot {
+                match f.as_mut().poll(cx) {
+                    Poll::Ready(()) => *slot = None,
+                    Poll::Pending => pending = true,
+                }
+            }
+        }
+        if pending { Poll::Pending } else { Poll::Ready(()) }
+    })
+    .await
 }
 
 fn futures_now_or_never<F: Future<Output = ()>>(f: F) -> bool {
@@ -188,9 +216,8 @@ fn run_case(case: &Case, obs: &mut Obs) -> Result<(), Failure> {
         // after shutdown every task's future has been dropped
         let rt2 = tokio::runtime::Builder::new_current_thread().enable_all().build().unwrap();
         rt2.block_on(async {
-            for (i, r) in running.iter().enumerate() {
-                join_and_check(r, i, &fail).await;
-            }
+            let futs: Vec<_> = running.iter().enumerate().map(|(i, r)| join_and_check(r, i, &fail)).collect();
+            futures_join_all(futs).await;
         });
     } else {
         rt.block_on(async {
@@ -220,11 +247,13 @@ fn run_case(case: &Case, obs: &mut Obs) -> Result<(), Failure> {
                     t.cancel();
                 }
             }
+            let mut futs = Vec::new();
             for (i, r) in running.iter().enumerate() {
                 if will_end_alone(&r.spec) {
-                    join_and_check(r, i, &fail).await;
+                    futs.push(join_and_check(r, i, &fail));
                 }
             }
+            futures_join_all(futs).await;
             for w in waiters {
                 // joiners of endless tasks are released by the shutdown below
                 if w.is_finished() {
@@ -266,10 +295,11 @@ fn run_case(case: &Case, obs: &mut Obs) -> Result<(), Failure> {
 
 pub fn run(ctx: &mut Ctx) {
     ctx.assume("a task 'ended' is observed through the Drop of a sentinel owned by the task's future (finish, panic and cancellation all drop the future)");
-    ctx.assume("liveness is only judged when the harness knows the task ended and join() stays pending for 2 x 30 s of real time");
+    ctx.assume("liveness is only judged when the harness knows the task ended (or cancelled its token) and join() stays pending for 2 x 30 s of real time");
     ctx.assume("thread interleavings are those the tokio scheduler produces; not exhaustive");
     ctx.essential(&["plain-task", "cancellable-task", "panicking-task", "runtime-shutdown-with-live-tasks", "pre-cancelled"]);
-    ctx.set_shrink_iters(200);
+    ctx.set_shrink_iters(6);
+    ctx.set_replay_times(300);
     let cases = ctx.tier.pick(1500, 60000);
     ctx.proptest(
         "task-sets",
